@@ -36,6 +36,13 @@ if P:
     RX = cfg.text_regexps(GRAMMAR, BNF, as_bytes=BYTES)
     MODE = 'complete' if LEXER == 'dynamic_complete' else 'longest'
     BLEXER = hs.basic_lexer_of(LARK) if FAMILY == 'basic' else None
+    # lark's names of anonymous literals -> the reference's names
+    NAME_MAP = {}
+    for _t in LARK.terminals:
+        if _t.name in RX:
+            NAME_MAP[_t.name] = _t.name
+        elif _t.pattern.type == 'str':
+            NAME_MAP[_t.name] = BNF.anon.get((_t.pattern.value, ''.join(sorted(_t.pattern.flags))), BNF._named_str.get(_t.pattern.value, _t.name))
     LARK_MODE = 'lark_complete' if LEXER == 'dynamic_complete' else 'lark_dynamic'
 
 
@@ -98,6 +105,47 @@ def _check_meta(rec, text, want, got, path='root'):
     return True
 
 
+def _frontier(prefix):
+    return cfg.Frontier(BNF, cfg.TextInput(prefix, RX, ignore=GRAMMAR.ignore, mode=MODE))
+
+
+def _check_text_error(rec, text, exc, recog):
+    """C08 at text level (dynamic Earley lexers): class, position and exact continuation set of a rejection."""
+    fr = _frontier(text)
+    member = recog.member()
+    rec['count']['errors_checked'] = 1
+    if member:
+        return hs.fail(rec, 'rejected a sentence', text=repr(text), exc=repr(exc))
+    if isinstance(exc, UnexpectedEOF):
+        if not fr.viable():
+            return hs.fail(rec, 'UnexpectedEOF although the input is not a proper prefix of a sentence', text=repr(text))
+        want = fr.next_terms() - {'$END'}
+        got = {NAME_MAP.get(x, x) for x in exc.expected}
+        if got != want:
+            return hs.fail(rec, 'UnexpectedEOF.expected is not exactly the set of terminals that can come next', text=repr(text), got=sorted(got), want=sorted(want))
+        return True
+    if isinstance(exc, UnexpectedCharacters):
+        if fr.viable():
+            return hs.fail(rec, 'the input is a proper prefix of a sentence but %s was raised instead of UnexpectedEOF' % type(exc).__name__, text=repr(text),
+                           pos=exc.pos_in_stream)
+        i = exc.pos_in_stream
+        fi = _frontier(text[:i])
+        if not fi.viable():
+            return hs.fail(rec, 'the prefix consumed up to the reported position cannot be extended to a sentence', text=repr(text), pos=i)
+        for j in range(i + 1, len(text) + 1):
+            if _frontier(text[:j]).viable():
+                return hs.fail(rec, 'reported position %d is not the first offending one: the prefix of length %d is still extendable' % (i, j), text=repr(text))
+        want = fi.next_terms() - {'$END'}
+        got = {NAME_MAP.get(x, x) for x in (exc.allowed or ())}
+        # terminals that could continue only by first consuming ignorable text that is present are legal continuations too: the frontier
+        # of text[:i] allows ignorable text before i
+        if got != want:
+            return hs.fail(rec, 'UnexpectedCharacters.allowed is not exactly the set of terminals that can come next', text=repr(text), pos=i,
+                           got=sorted(got), want=sorted(want))
+        return True
+    return hs.fail(rec, 'dynamic lexer rejection reported as %s' % type(exc).__name__, text=repr(text))
+
+
 def _body(rec, cs):
     text = hs.class_string(cs, REPS, use_bytes=BYTES)
     exc = tree = None
@@ -129,6 +177,10 @@ def _body(rec, cs):
                         # explained exactly by "re's preferred match is taken for the longest / for the only maximal one"
                         rec['fkey'] = 'preferred-match-not-longest:%s:%s' % (P['g'], LEXER)
                 return hs.fail(rec, ('rejected a sentence' if is_member else 'accepted a non-sentence'), text=repr(text), exc=repr(exc))
+        if exc is not None and 'errpos' in ASSERTS and FAMILY == 'dynamic':
+            r = _check_text_error(rec, text, exc, recog)
+            if r is not True:
+                return r
         if exc is None and 'pos' in ASSERTS:
             toks = []
             _tokens_of(tree, toks)
